@@ -100,6 +100,13 @@ Theorem C14_safe : forall pton4 pton6 p flags, In 0%N p ->
 Proof. exact thm_safe. Qed.
 Print Assumptions C14_safe.
 
+(** ... and whatever addrsyntax() returns, for any buffer at all, the buffer afterwards differs from the buffer
+    before only in bytes that are now NUL (it cuts the line at commas, the colon and the closing bracket) *)
+Theorem C14_writes : forall pton4 pton6 mem0 flags r,
+  addrsyntax pton4 pton6 mem0 flags = Ok r -> nulw mem0 (as_mem r) /\ length (as_mem r) = length mem0.
+Proof. exact thm_writes. Qed.
+Print Assumptions C14_writes.
+
 (** The oracle: the reference inet_pton of Model/InetPton.v (the one the extracted model runs, compared with
     glibc by the correspondence check) accepts only 7-bit strings without NUL/CR/LF, and with such an oracle
     every address handed back is 7-bit and free of NUL, CR and LF *)
